@@ -250,6 +250,11 @@ PROPS["C12"] = {
         {"pkg": "sqlite", "dir": "sqlite", "entry": "VerifH_C12_changes", "extra": [("s3db_export", ".")], "no_native": True,
          "quick": {"params": "steps=3,faults=0", "workers": 16, "timeout": 1800},
          "thorough": {"params": "steps=3,faults=1", "workers": 16, "timeout": 7200}},
+        {"pkg": "sqlite", "dir": "sqlite", "entry": "VerifH_C12_to_current", "extra": [("s3db_export", ".")], "no_native": True, "reach": ["end", "queried"],
+         "quick": {"params": "steps=3", "workers": 16, "timeout": 1800},
+         "thorough": {"params": "steps=4", "workers": 16, "timeout": 7200}},
+        {"pkg": "sqlite", "dir": "sqlite", "entry": "VerifH_C12_changes", "tag": "-faults", "extra": [("s3db_export", ".")], "no_native": True,
+         "quick": {"params": "steps=2,faults=1,damage=0,refilter=0", "workers": 16, "timeout": 1800}, "quick_only": True},
         {"pkg": "sqlite", "dir": "sqlite", "entry": "VerifH_C12_changes", "tag": "-two-writers", "extra": [("s3db_export", ".")], "no_native": True,
          "quick": {"params": "steps=2,faults=0,writers=2,damage=0", "workers": 16, "timeout": 1800},
          "thorough": {"params": "steps=3,faults=0,writers=2,damage=0", "workers": 16, "timeout": 7200}},
@@ -280,6 +285,8 @@ PROPS["C08"] = {
         {"pkg": "sqlite", "dir": "sqlite", "entry": "VerifH_C08_roundtrip", "extra": [("s3db_export", ".")], "no_native": True,
          "quick": {"params": "maxlen=2", "workers": 16, "timeout": 1200},
          "thorough": {"params": "maxlen=4", "workers": 16, "timeout": 3600}},
+        {"pkg": "sqlite", "dir": "sqlite", "entry": "VerifH_C08_update", "extra": [("s3db_export", ".")], "no_native": True,
+         "quick": {"workers": 16, "timeout": 1200}},
     ],
     "bounds": {"quick": "one value in key or non-key position: any int64, any non-NaN float64 bit pattern (incl. -0.0, infinities), TEXT/BLOB of 0..2 symbolic bytes, NULL; written through the sqlite layer, committed, read back by the writer and by another connection after re-open",
                "thorough": "TEXT/BLOB 0..4 bytes"},
